@@ -35,7 +35,9 @@ ASSUMPTIONS = ['integer times, environment starts at time 0',
                'embedded graphs use until = time | event (a native triggering an event after an `until=None` '
                'environment has drained hits ScopeClosed, whose moment depends on the scope internals)',
                'natives reference plain events and up-front processes only; a process references a '
-               'sub-process only after starting it itself; Timeouts are created inside processes']
+               'sub-process only after starting it itself; Timeouts are created inside processes',
+               'no `raise` before the first yield of a script (see design_notes/C18.md: the exception leaves '
+               'Process._run_payload instead of failing the process event)']
 
 ACT_NAT, ACT_CB, ACT_RES = 100, 200, 300
 
@@ -585,6 +587,14 @@ def gen_graph(rng, profile, mode=None):
         n = rng.randint(2, 7)
         first = True
         lead = rng.randint(0, 2)
+        if rng.random() < 0.08:
+            # a process that ends without ever yielding (D17): a few operations, then return / fall off the end
+            for i in range(rng.randint(0, 3)):
+                sc.append(op(known, kprocs))
+            if rng.random() < 0.7:
+                sc.append(['ret', rng.randint(0, 9)])
+            procs[p]['script'] = sc
+            continue
         for i in range(n + 2):
             r = rng.random()
             if (first and i >= lead) or (not first and r < 0.5):
@@ -706,6 +716,9 @@ def corner_graphs():
           nats=[[['succ', 0, 2], ['await', 1], ['await', 0]], [['await', 0], ['cb', 1, 2]]], envpos=2),
         # callbacks on an event: before, after
         G([P(1, [['cb', 0, 3], ['cb', 0, 4], ['succ', 0, 1], ['cb', 0, 5], Y(['to', 2, 0, 0]), ['cb', 0, 6]])]),
+        # processes that end without ever yielding (D17), up-front and as a sub-process waited for by the parent
+        G([P(1, [['ret', 7]]), P(2, [['succ', 0, 1]]), P(3, [Y(['ev', 1]), Y(['ev', 2]), Y(['ev', 0])])]),
+        G([P(1, [['start', 1], Y(['ev', 2]), Y(['to', 3, 1, 0]), Y(['ev', 2])]), P(2, [['ret', 4]], up=False)]),
         # sub-process, waited for by the parent
         G([P(2, [['start', 1], Y(['ev', 3]), ['ret', 1]]), P(3, [Y(['to', 4, 2, 0]), ['ret', 8]], up=False)], nev=2),
     ]
@@ -859,7 +872,8 @@ def valid(g):
     try:
         for p in g['procs']:
             ys = [i for i, a in enumerate(p['script']) if a[0] == 'yield']
-            if not ys or any(a[0] in ('ret', 'raise') for a in p['script'][:ys[0]]):
+            first = ys[0] if ys else len(p['script'])
+            if any(a[0] == 'raise' for a in p['script'][:first]):
                 return False
         run_graph(g)
         return True
